@@ -122,7 +122,13 @@ def iter_product(ex, v, p, line):
     return lst.len, (lambda k: wrap(lst.kind, z3.Select(lst.arr, k))), None, None
 
 
+def datetime_now(ex, p, args, kwargs, e):
+    """datetime.datetime.now(): some real number of seconds (T12); nothing is assumed about successive readings."""
+    return VReal(fresh('now', z3.RealSort()))
+
+
 def install(ex):
+    ex.ext_models['datetime.datetime.now'] = datetime_now
     ex.ext_models['product'] = it_product
     ex.iter_models['product_enum'] = iter_product
     ex.ext_models['np.sum'] = np_sum
